@@ -67,15 +67,10 @@ def NInv (s : State) : Prop :=
   | .opening m (some _) => ∃ U, Mid s m U [Kind.queued] false
   | .sending m _ => ∃ U, Mid s m U [Kind.queued] false
   | .resetting m _ => ∃ U, Mid s m U [Kind.queued] false
-  | .exited => False
+  | .exited => Idle s
 
-/-- after the queue goroutine has exited nothing is delivered any more -/
-structure Frozen (s : State) : Prop where
-  pc : s.pc = .exited
-  done : ∀ (t : Nat) u, Done (seqOf u t s.log)
-  wsorted : (wiresOf s.log).Pairwise (· < ·)
-
-def J (s : State) : Prop := Frozen s ∨ NInv s
+/-- the invariant of all reachable states -/
+def J (s : State) : Prop := NInv s
 
 theorem attempt_ninv (pick : Pick) {s : State} {m : InFlight} {U : List Sub} (i : Nat)
     (h : Mid s m U [Kind.queued] (i == 0)) : NInv (s.attempt pick m i) := by
@@ -152,9 +147,7 @@ theorem run_ninv (pick : Pick) {s : State} (h : NInv s) (pw : Bool) : NInv (s.ru
             · exact emit_quiet _ _ (by intro e he; simp at he; subst he; rfl) (by intro e he; simp at he; subst he; rfl)
             · exact Quiet.refl _
           exact (h1.quiet q).frame ⟨rfl, rfl, rfl, rfl, rfl⟩
-        split
-        · exact key _ (drain_idle pick _ _ (hi.frame ⟨rfl, rfl, rfl, rfl, rfl⟩))
-        · exact key _ hi
+        exact key _ (drain_idle pick _ _ hi)
       · exact h
   | opening m r => exact h
   | sending m i => exact h
@@ -169,12 +162,11 @@ theorem ack_J (pick : Pick) {s : State} (h : NInv s) (ok : Bool) : J (s.ack pick
   obtain ⟨peer, maxRetries, builders, nextTopic, token, done, sender, pc, closedStreams, waiters,
     nextTicket, topics, pubClosed, alloc, log⟩ := s
   cases pc with
-  | idle => exact Or.inr h
-  | exited => exact absurd h (by intro h'; exact h')
+  | idle => exact h
+  | exited => exact h
   | exiting =>
     have hi : Idle (⟨peer, maxRetries, builders, nextTopic, token, done, sender, .exiting, closedStreams, waiters,
         nextTicket, topics, pubClosed, alloc, log⟩ : State) := h
-    left
     unfold State.ack
     simp only
     have q1 := allocStep_quiet pick (⟨peer, maxRetries, builders, nextTopic, token, done, sender, .exiting, closedStreams, waiters,
@@ -182,27 +174,15 @@ theorem ack_J (pick : Pick) {s : State} (h : NInv s) (ok : Bool) : J (s.ack pick
     have i1 := hi.quiet q1
     generalize (State.allocStep pick (⟨peer, maxRetries, builders, nextTopic, token, done, sender, .exiting, closedStreams, waiters,
         nextTicket, topics, pubClosed, alloc, log⟩ : State) (.releasePeer peer)).1 = s1 at i1
-    -- the publisher's final sweep finds no topic
-    have hlog : (s1.pubShutdown.emit [Event.exitCallback]).log = s1.log ++ [Event.exitCallback] := by
-      unfold State.pubShutdown
-      rw [i1.open_]
-      simp [State.emit, i1.topics]
-    refine ⟨rfl, ?_, ?_⟩
-    · intro t u
-      show Done (seqOf u t (s1.pubShutdown.emit [Event.exitCallback]).log)
-      rw [hlog, seqOf_append]
-      simp only [seqOf, List.append_nil]
-      exact i1.done t u
-    · show (wiresOf (s1.pubShutdown.emit [Event.exitCallback]).log).Pairwise (· < ·)
-      rw [hlog, wiresOf_append]
-      simp only [wiresOf, List.append_nil]
-      exact i1.wsorted
+    have i2 := i1.quiet (emit_quiet s1 [Event.exitCallback] (by intro e he; simp at he; subst he; rfl)
+      (by intro e he; simp at he; subst he; rfl))
+    show Idle _
+    exact i2.frame ⟨rfl, rfl, rfl, rfl, rfl⟩
   | opening m r =>
     cases r with
     | none =>
       obtain ⟨U, hm⟩ : ∃ U, Mid (⟨peer, maxRetries, builders, nextTopic, token, done, sender, .opening m none, closedStreams, waiters,
         nextTicket, topics, pubClosed, alloc, log⟩ : State) m U [Kind.queued] true := h
-      right
       unfold State.ack
       simp only
       split
@@ -216,7 +196,6 @@ theorem ack_J (pick : Pick) {s : State} (h : NInv s) (ok : Bool) : J (s.ack pick
     | some i =>
       obtain ⟨U, hm⟩ : ∃ U, Mid (⟨peer, maxRetries, builders, nextTopic, token, done, sender, .opening m (some i), closedStreams, waiters,
         nextTicket, topics, pubClosed, alloc, log⟩ : State) m U [Kind.queued] false := h
-      right
       unfold State.ack
       simp only
       split
@@ -227,7 +206,6 @@ theorem ack_J (pick : Pick) {s : State} (h : NInv s) (ok : Bool) : J (s.ack pick
   | sending m i =>
     obtain ⟨U, hm⟩ : ∃ U, Mid (⟨peer, maxRetries, builders, nextTopic, token, done, sender, .sending m i, closedStreams, waiters,
         nextTicket, topics, pubClosed, alloc, log⟩ : State) m U [Kind.queued] false := h
-    right
     unfold State.ack
     simp only
     split
@@ -237,7 +215,6 @@ theorem ack_J (pick : Pick) {s : State} (h : NInv s) (ok : Bool) : J (s.ack pick
   | resetting m i =>
     obtain ⟨U, hm⟩ : ∃ U, Mid (⟨peer, maxRetries, builders, nextTopic, token, done, sender, .resetting m i, closedStreams, waiters,
         nextTicket, topics, pubClosed, alloc, log⟩ : State) m U [Kind.queued] false := h
-    right
     unfold State.ack
     simp only
     split
@@ -252,7 +229,7 @@ theorem NInv.quiet {s s' : State} (h : NInv s) (q : Quiet s s') (hpc : s'.pc = s
   cases hp : s.pc with
   | idle => rw [hp] at h; exact Idle.quiet h q
   | exiting => rw [hp] at h; exact Idle.quiet h q
-  | exited => rw [hp] at h; exact h
+  | exited => rw [hp] at h; exact Idle.quiet h q
   | opening m r =>
     rw [hp] at h
     cases r with
@@ -261,33 +238,74 @@ theorem NInv.quiet {s s' : State} (h : NInv s) (q : Quiet s s') (hpc : s'.pc = s
   | sending m i => rw [hp] at h; obtain ⟨U, hm⟩ := h; exact ⟨U, hm.quiet q⟩
   | resetting m i => rw [hp] at h; obtain ⟨U, hm⟩ := h; exact ⟨U, hm.quiet q⟩
 
-theorem Frozen.quiet {s s' : State} (h : Frozen s) (q : Quiet s s') (hpc : s'.pc = s.pc) : Frozen s' :=
-  ⟨hpc.trans h.pc, fun t u => by rw [q.seq]; exact h.done t u, by rw [q.wires]; exact h.wsorted⟩
+theorem J.quiet {s s' : State} (h : J s) (q : Quiet s s') (hpc : s'.pc = s.pc) : J s' := NInv.quiet h q hpc
 
-theorem J.quiet {s s' : State} (h : J s) (q : Quiet s s') (hpc : s'.pc = s.pc) : J s' := by
-  rcases h with h | h
-  · exact Or.inl (h.quiet q hpc)
-  · exact Or.inr (h.quiet q hpc)
+theorem closed_idle {s : State} (h : NInv s) (hc : s.closed = true) : Idle s := by
+  obtain ⟨peer, maxRetries, builders, nextTopic, token, done, sender, pc, closedStreams, waiters,
+    nextTicket, topics, pubClosed, alloc, log⟩ := s
+  cases pc <;> first | exact h | (simp [State.closed] at hc)
+
+theorem idle_closed {s : State} (h : Idle s) (hc : s.closed = true) : NInv s := by
+  obtain ⟨peer, maxRetries, builders, nextTopic, token, done, sender, pc, closedStreams, waiters,
+    nextTicket, topics, pubClosed, alloc, log⟩ := s
+  cases pc <;> first | exact h | (simp [State.closed] at hc)
+
+/-- `buildMessage` as seen by callers: quiet on an open queue, a complete `Error`, close on a closed one -/
+theorem buildMsg_ninv (pick : Pick) {s : State} (h : NInv s) (ticket : Nat) (tx : Tx) (size : Nat) :
+    NInv (s.buildMsg pick ticket tx size) := by
+  by_cases hc : s.closed = true
+  · have hi := (closed_idle h hc).quiet (buildMessage_quiet pick s ticket tx size)
+    have hd := drain_idle pick 1 _ hi
+    have hpc : (s.buildMsg pick ticket tx size).pc = s.pc := buildMsg_pc _ _ _ _ _
+    have : s.buildMsg pick ticket tx size = State.drain pick 1 (s.buildMessage pick ticket tx size) := by
+      unfold State.buildMsg; rw [if_pos hc]
+    rw [this] at hpc ⊢
+    exact idle_closed hd (by rw [closed_pc hpc]; exact hc)
+  · have hc' : s.closed = false := by simpa using hc
+    rw [buildMsg_open pick hc']
+    exact h.quiet (buildMessage_quiet _ _ _ _ _) (buildMessage_pc _ _ _ _ _)
+
+theorem buildWith_ninv (pick : Pick) {s : State} (h : NInv s) (tx : Tx) (size : Nat) :
+    NInv (buildWith pick s tx size) := by
+  unfold buildWith
+  simp only
+  have h0 : NInv ({ s with nextTicket := s.nextTicket + 1 } : State) :=
+    h.quiet (Quiet.ofLog [] (by simp) (by simp) (by simp) rfl rfl rfl rfl) rfl
+  split
+  · exact buildMsg_ninv pick h0 _ _ _
+  · have h1 := h0.quiet (allocStep_quiet pick ({ s with nextTicket := s.nextTicket + 1 } : State)
+      (.alloc s.peer size s.nextTicket)) rfl
+    split
+    · exact buildMsg_ninv pick h1 _ _ _
+    · exact h1.quiet (Quiet.ofLog [] (by simp) (by simp) (by simp) rfl rfl rfl rfl) rfl
 
 theorem step_J (pick : Pick) {s : State} (h : J s) (a : Act) : J (step pick s a) := by
   cases a with
-  | build tx => exact h.quiet (build_quiet pick s tx) (build_pc pick s tx)
-  | wake t => exact h.quiet (wake_quiet pick s t) (wake_pc pick s t)
-  | run pw =>
-    rcases h with h | h
-    · left; show Frozen (s.run pick pw); rw [run_exited _ _ _ h.pc]; exact h
-    · exact Or.inr (run_ninv pick h pw)
-  | ack ok =>
-    rcases h with h | h
-    · left; show Frozen (s.ack pick ok); rw [ack_exited _ _ _ h.pc]; exact h
-    · exact ack_J pick h ok
+  | build tx =>
+    show NInv (s.build pick tx)
+    rw [build_eq]; split
+    · exact h
+    · exact buildWith_ninv pick h tx _
+  | wake t =>
+    show NInv (s.wake pick t)
+    unfold State.wake
+    split
+    · exact h
+    · next w _ =>
+      simp only
+      have h0 : NInv ({ s with waiters := s.waiters.filter (·.ticket != w.ticket) } : State) :=
+        h.quiet (Quiet.ofLog [] (by simp) (by simp) (by simp) rfl rfl rfl rfl) rfl
+      split
+      · exact buildMsg_ninv pick h0 _ _ _
+      · exact h0.quiet (emit_quiet _ _ (by intro e he; simp at he; subst he; rfl) (by intro e he; simp at he; subst he; rfl)) rfl
+  | run pw => exact run_ninv pick h pw
+  | ack ok => exact ack_J pick h ok
   | shutdown =>
     exact h.quiet (Quiet.ofLog [] (by simp [step]) (by simp) (by simp) rfl rfl rfl rfl) rfl
   | env op =>
     exact h.quiet (allocStep_quiet pick s op) rfl
 
 theorem init_J (peer mr mt mp : Nat) : J (init peer mr mt mp) := by
-  right
   show Idle (init peer mr mt mp)
   refine ⟨⟨rfl, ?_, ?_, ?_, ?_⟩, rfl, ?_, ?_⟩
   · intro t _ u; rfl
